@@ -15,8 +15,10 @@
 //! * `mixed be= workers=W seed=S` concurrent mixed workloads on one shared Module vs the same alone:
 //!   `ok conc=<h,…> alone=<h,…>`.
 //! * `prep be= ty=u8|u32 value= start= count= threads=1,2,… perturb=P`  real circuit bootstrapping
-//!   (`prepare_custom_multi_thread`, crate test parameters): `ok started=… acts=<per thread count:
-//!   per bit r|z|x> digest…` or `panic:<class>`.
+//!   (`prepare_custom_multi_thread`, crate test parameters; `scratch=full|exact|short` = per-thread
+//!   size rounded up to 64 (+64) | exactly `threads * tmp_bytes` | 64 bytes less):
+//!   `ok per=<bytes> t<threads>=<avail>:ok:<started t.t.…>:<per bit r|z|x>` (r = bit equals the
+//!   single-bit single-thread reference, z = zero GGSW) or `t<threads>=<avail>:panic:<class>`.
 use std::cell::Cell;
 use std::io::{BufRead, Write};
 use std::sync::Mutex;
@@ -114,6 +116,8 @@ fn panic_class() -> &'static str {
         || m.contains("out.len()")
         || m.contains("inputs.bit_size()") {
         "assert"
+    } else if m.contains("Attempted to take") {
+        "scratch"
     } else if m.contains("divide by zero") || m.contains("overflow") {
         "overflow"
     } else if m.contains("out of bounds") || m.contains("out of range") {
@@ -552,7 +556,7 @@ macro_rules! prep_impl {
                 let start = kvn(t, "start", 0);
                 let count = kvn(t, "count", T::BITS as usize);
                 let tl = kvlist(t, "threads");
-                let short = kvs(t, "scratch") == Some("short");
+                let mode = kvs(t, "scratch").unwrap_or("full");
                 let module = &tc.module;
                 let glwe_infos = tc.glwe_infos();
                 let ggsw_infos = tc.ggsw_infos();
@@ -589,8 +593,13 @@ macro_rules! prep_impl {
                     prep.encrypt_sk(module, ones, &tc.sk_glwe, &ggsw_enc, &mut xe, &mut xa, scratch.borrow());
                     let per = module.fhe_uint_prepare_tmp_bytes(7, 1, &prep, &c_enc, &tc.bdd_key);
                     per_out = per;
-                    let bytes = if short { (th * per).saturating_sub(64) } else { th * per + 64 };
+                    let bytes = match mode {
+                        "short" => (th * per).saturating_sub(64),
+                        "exact" => th * per,
+                        _ => th * per.next_multiple_of(64) + 64,
+                    };
                     let mut sc: ScratchOwned<BE> = ScratchOwned::alloc(bytes);
+                    let avail = sc.borrow().available();
                     clear_logs();
                     set_chunk_start_hook(Some(hook));
                     let r = std::panic::catch_unwind(std::panic::AssertUnwindSafe(|| {
@@ -598,7 +607,7 @@ macro_rules! prep_impl {
                     }));
                     set_chunk_start_hook(None);
                     if r.is_err() {
-                        res.push(format!("t{th}=panic:{}", panic_class()));
+                        res.push(format!("t{th}={avail}:panic:{}", panic_class()));
                         continue;
                     }
                     let mut started = STARTED.lock().unwrap().clone();
@@ -619,7 +628,7 @@ macro_rules! prep_impl {
                             }
                         })
                         .collect();
-                    res.push(format!("t{th}=ok:{}:{}", join(&started, "."), acts.join("")));
+                    res.push(format!("t{th}={avail}:ok:{}:{}", join(&started, "."), acts.join("")));
                 }
                 format!("ok per={per_out} {}", res.join(" "))
             }
